@@ -140,3 +140,54 @@ Print Assumptions C12_pobs_eqb_sound.
 Theorem C12_hobs_eqb_sound : forall a b, hobs_eqb a b = true -> a = b.
 Proof. exact hobs_eqb_true. Qed.
 Print Assumptions C12_hobs_eqb_sound.
+
+(* ---- an object AND the copies its subsets return: histories that go on with any of them ---- *)
+
+Theorem C12_pool_run_refines :
+  forall (tab : Type) (ids1 ids2 : tab -> list Z) (sub1 sub2 : list Z -> list Z -> tab -> res tab),
+  (forall s r t t', sub1 s r t = Ok t' -> ids2 t' = ids2 t) ->
+  (forall s r t t', sub2 s r t = Ok t' -> ids1 t' = ids1 t) ->
+  forall ops objs f,
+  Forall (cache_valid tab ids1 ids2) objs ->
+  pool_ops_ok tab ids1 ids2 sub1 sub2 (map (@o_tab tab) objs) f ops ->
+  pool_m_run tab ids1 ids2 sub1 sub2 objs f ops
+  = pool_a_run tab ids1 ids2 sub1 sub2 (map (@o_tab tab) objs) f ops.
+Proof. exact pool_run_refines. Qed.
+Print Assumptions C12_pool_run_refines.
+
+(* non-interference: an operation on one object changes no other object (contents or caches),
+   and a returned copy starts without caches *)
+Theorem C12_pool_step_frame :
+  forall (tab : Type) (ids1 ids2 : tab -> list Z) (sub1 sub2 : list Z -> list Z -> tab -> res tab)
+         objs f p objs' f' out,
+  pool_m_step tab ids1 ids2 sub1 sub2 objs f (XOn p) = Ok (objs', f', out) ->
+  f' = f
+  /\ (forall j, j <> f -> (j < length objs)%nat -> nth_error objs' j = nth_error objs j)
+  /\ match out with
+     | Some t => nth_error objs' (length objs) = Some (mko t None None)
+                 /\ length objs' = S (length objs)
+     | None => length objs' = length objs
+     end.
+Proof. exact pool_step_frame. Qed.
+Print Assumptions C12_pool_step_frame.
+
+Theorem C12_refines_geno_pool :
+  forall (T : Type) (rare : T -> Z -> Z -> bool) (file : gtab) (anc : bool) (ops : list (xop (gop T))),
+  gm_prun T rare file anc false ops = ga_prun T rare file anc false ops.
+Proof. exact refines_geno_pool. Qed.
+Print Assumptions C12_refines_geno_pool.
+
+Theorem C12_refines_pheno_pool :
+  forall (file : ptab) (ops : list (xop pop)),
+  fresh_appends_pool file [p_empty] 0 ops -> pm_prun file false ops = pa_prun file false ops.
+Proof. exact refines_pheno_pool. Qed.
+Print Assumptions C12_refines_pheno_pool.
+
+Theorem C12_copies_do_not_share :
+  map (fun x => match x with Ok (_, Some r) => p_names r | _ => [] end)
+      (pm_prun pf3 false [XOn (PRead None); XOn (PIndex true true); XOn (PSubset (Some [0; 2]) None false);
+                          XSwitch 1; XOn (PAppend 5 [4; 4]); XOn (PSubset None (Some [5; 1]) false);
+                          XSwitch 0; XOn (PSubset None (Some [5; 1]) false)])
+  = [[]; []; [0; 1]; []; []; [5; 1]; []; [1]].
+Proof. exact copies_do_not_share. Qed.
+Print Assumptions C12_copies_do_not_share.
